@@ -894,3 +894,79 @@ class ReadZsliceCoord(ReadZslice):
 for _off in (False, True):
     register(type('ReadZsliceCoord', (ReadZsliceCoord,), dict(off_axis=_off)), 'read.py::SgzReader.read_zslice_coord', ['C02', 'C14'], [CFG_DEFAULT[3], CFG_ZSLICE[0]], modes=('file',),
              tag='between samples' if _off else 'on the axis')
+
+
+# ---------------------------------------------------------------------------------------------
+# xarray backend (C02): basic numpy-style keys on the lazily indexed array
+
+class XarrayRawIndexing(ReadContract):
+    """SeismicZfpBackendArray._raw_indexing_method(key) for basic keys (what xarray hands over with IndexingSupport.BASIC): an int drops its
+    axis (negative ints count from the end), a slice selects start, start+step, ... as numpy does.  Result = the decoded volume under
+    exactly that numpy key; IndexError for an int outside the axis.  Variants: which axes get an int / a bounded slice / a stepped slice."""
+    kinds = ('int', 'full', 'full')
+
+    def inputs(self, c):
+        g, rd = self.reader(c)
+        arr = SObj(c.ex.prog.klass('SeismicZfpBackendArray'), dict(shape=(g.nI, g.nX, g.nZ), dtype='float32', sgz_reader=rd))
+        key, spec = [], []
+        for ax, (kind, n) in enumerate(zip(self.kinds, (g.nI, g.nX, g.nZ))):
+            if kind == 'int':
+                i = c.sym_int(f'k{ax}', name=f'key[{ax}]')
+                key.append(i)
+                spec.append(('int', i, n))
+            elif kind == 'full':
+                key.append(SSlice(None, None, None))
+                spec.append(('slice', 0, n, 1, n))
+            elif kind == 'range':
+                a_ = c.sym_int(f'a{ax}', lo=0, name=f'key[{ax}].start'); b_ = c.sym_int(f'b{ax}', lo=0, name=f'key[{ax}].stop')
+                c.assume(lt(a_, b_), le(b_, n))
+                key.append(SSlice(a_, b_, None))
+                spec.append(('slice', a_, b_, 1, n))
+            else:      # ('step', s): whole axis with a positive step
+                s_ = kind[1]
+                key.append(SSlice(None, None, s_))
+                spec.append(('slice', 0, n, s_, n))
+        return dict(self=arr, key=tuple(key), _g=g, _spec=spec)
+
+    def raises(self, c, a):
+        conds = []
+        for sp in a['_spec']:
+            if sp[0] == 'int':
+                conds.append(Not(And(ge(sp[1], sub(0, sp[2])), lt(sp[1], sp[2]))))
+        return {'IndexError': Or(*conds) if conds else False}
+
+    def post(self, c, a, result):
+        g = a['_g']
+        shape, maps = [], []
+        for sp in a['_spec']:
+            if sp[0] == 'int':
+                i, n = sp[1], sp[2]
+                maps.append(('int', Ite(lt(i, 0), add(i, n), i)))
+            else:
+                _, lo, hi, st, n = sp
+                shape.append(S.ceil_div(sub(hi, lo), st))
+                maps.append(('slice', lo, st))
+        if not shape:
+            c.ensure(mk_bool(isinstance(result, STok)), 'scalar_for_three_ints')
+            coords = [m[1] for m in maps]
+            c.ensure(result == O.Vpad(g, *coords), 'elem')
+            return
+        c.ensure(mk_bool(isinstance(result, SArray) and len(result.shape) == len(shape)), 'one_axis_per_slice_in_the_key')
+        if not (isinstance(result, SArray) and len(result.shape) == len(shape)):
+            return
+        for k, d in enumerate(shape):
+            c.ensure(eq(result.shape[k], d), f'shape[{k}]')
+        e = O.skolem_index(c, result.shape)
+        coords, j = [], 0
+        for m in maps:
+            if m[0] == 'int':
+                coords.append(m[1])
+            else:
+                coords.append(add(m[1], mul(e[j], m[2])))
+                j += 1
+        c.ensure(result.fn(e) == O.Vpad(g, *coords), 'elem')
+
+
+for _kinds in (('int', 'full', 'full'), ('full', 'int', 'range'), ('range', 'range', 'range'), (('step', 2), 'full', ('step', 3)), ('int', 'int', 'int')):
+    _tag = ','.join(k if isinstance(k, str) else f'step{k[1]}' for k in _kinds)
+    register(type('XarrayRawIndexing', (XarrayRawIndexing,), dict(kinds=_kinds)), 'sgz_xarray.py::SeismicZfpBackendArray._raw_indexing_method', ['C02', 'C14'], [CFG_DEFAULT[3]], modes=('file',), tag='key:' + _tag)
